@@ -29,6 +29,8 @@ def run(ctx):
     ctx.rule('C03.4', 'Event::stream_kind is a function of the variant only: every Continuity* variant maps to StreamKind::Continuity, every ToolTask* variant to Task; stream_id returns session_id.')
 
     # ---------------------------------------------------------------- C03.2
+    from .common import sidecar_append_rx
+    BEST_EFFORT = sidecar_append_rx(P)
     sites = emitters(P)
     ctx.floor('C03.2', 'emitters (EventLog::append call sites)', len(sites), 15)
     for s in sites:
@@ -175,11 +177,26 @@ def c035(ctx):
     from ..prov import fields_read
     P = ctx.prog
     ctx.rule('C03.5', 'the per-thread sidecar mirrors every continuity frame: in ContinuityStreamCache::append_best_effort no branch on the frame\'s own fields (kind, seq, id, ...) can bypass the line write; the only early exits are the stream-kind test and I/O failures. The same holds for the truth append: EventLog::append has no branch on the event at all.')
-    f = P.fn('ripd::continuity_stream_cache::ContinuityStreamCache::append_best_effort')
+    from .common import sidecar_appenders
+    from ..inline import inline_calls, contains
+    for ap_ in sidecar_appenders(P):
+        _c035_one(ctx, inline_calls(P, P.fn(ap_), lambda body, callee, w_=contains(rx_calls=r'std::io::Write>::write_all$'): callee.startswith('ripd::continuity_stream_cache::') and w_(body, callee), depth=2, note=ctx.note))
+    app = P.fn('rip_log::EventLog::append')
+    sw_on_event = []
+    for (bi, on, ts, els) in switches(app):
+        if fields_read(app, on, 'rip_kernel::Event'):
+            sw_on_event.append(bi)
+    ctx.ob('C03.5', app, 'truth-append-unconditional', not sw_on_event, 'EventLog::append has %d branch(es) on the event' % len(sw_on_event), line=app.line)
+
+
+def _c035_one(ctx, f):
+    from ..core import switches
+    from ..prov import fields_read
+    P = ctx.prog
     ctx.touch(f)
     writes = f.calls(r'std::io::Write>::write_all$')
     if not writes:
-        raise CheckError('C03.5: append_best_effort has no write_all')
+        raise CheckError('C03.5: %s has no write_all' % f.path)
     w0 = [w for w in writes if all(f.dom(w.bb, x.bb) for x in writes)]
     w0 = w0[0] if w0 else writes[0]
     rets = f.returns()
@@ -202,12 +219,6 @@ def c035(ctx):
     ctx.ob('C03.5', f, 'no-content-filter-before-write', not bad,
            '%d branch(es) on the frame precede the sidecar write; %s' % (n, 'none of them (other than the stream-kind test) can bypass the write' if not bad else
                                                                           'a branch on Event.%s can skip the write: such frames are in the log but never in the sidecar' % bad[0][1]), line=w0.line)
-    app = P.fn('rip_log::EventLog::append')
-    sw_on_event = []
-    for (bi, on, ts, els) in switches(app):
-        if fields_read(app, on, 'rip_kernel::Event'):
-            sw_on_event.append(bi)
-    ctx.ob('C03.5', app, 'truth-append-unconditional', not sw_on_event, 'EventLog::append has %d branch(es) on the event' % len(sw_on_event), line=app.line)
 
 
 LOSSY = r'::from_utf8_lossy$|::from_utf8_unchecked$|::from_utf16_lossy$|::from_utf8_lossy_owned$'
